@@ -296,10 +296,12 @@ func checkWellKnown(c *fw.Ctx) {
 		c.Check(n == 51200, rule, "WellKnownMaxSize is 50 KiB", "", fmt.Sprint(n), fmt.Sprintf("limit is %d", n))
 	}
 	okLimit := false
-	for _, b := range fn.Blocks {
-		for _, ins := range b.Instrs {
-			if st, ok := ins.(*ssa.Store); ok && strings.HasSuffix(fw.Sig(st.Addr), "io.LimitedReader.N") && fw.Sig(st.Val) == "51200" {
-				okLimit = true
+	for _, rf := range fw.RegionOf(fn, nil) {
+		for _, b := range rf.Blocks {
+			for _, ins := range b.Instrs {
+				if st, ok := ins.(*ssa.Store); ok && strings.HasSuffix(fw.Sig(st.Addr), "io.LimitedReader.N") && fw.Sig(st.Val) == "51200" {
+					okLimit = true
+				}
 			}
 		}
 	}
@@ -310,7 +312,8 @@ func checkWellKnown(c *fw.Ctx) {
 		}
 	}
 	c.Check(okLimit, rule, "the body is read through a LimitedReader of WellKnownMaxSize", c.P.Pos(fn.Pos()), "", "no io.LimitedReader{N: WellKnownMaxSize}")
-	for _, call := range fw.CallsTo(fn, false, fw.NameIs("io.ReadAll")) {
+	for _, dc := range deepCallsTo(fn, fw.NameIs("io.ReadAll")) {
+		call := dc.Call
 		s := fw.Sig(call.Common().Args[0])
 		c.Check(strings.Contains(s, "io.LimitedReader") || (strings.HasPrefix(s, "io.LimitReader(") && strings.HasSuffix(s, ",51200)")), rule, "only the limited reader is read", c.P.Pos(call.Pos()), "", "ReadAll on "+s)
 	}
